@@ -102,3 +102,27 @@ Proof. exact hoist_spec_okb_complete. Qed.
 
 Theorem C10_hoist_meets_spec : forall g loops l, topo g l -> hoist_spec_okb g loops l (hoist g loops l) = true.
 Proof. exact hoist_meets_spec. Qed.
+
+(* ---- mechanism 1: pruning of pass-through nodes ---- *)
+Require Import TV.Proofs.PruneProofs.
+
+(* removing any list of nodes from any acyclic graph, connecting every predecessor to every
+   successor, leaves the transitive dependences among the nodes that stay exactly as they were *)
+Theorem C10_prune_reach : forall ns g a b, acyclic g -> ~ In a ns -> ~ In b ns ->
+  (reach (prune g ns) a b <-> reach g a b).
+Proof. exact prune_reach. Qed.
+
+(* the checker evaluated on the code's graph before and after FlowGraph.__prune *)
+Theorem C10_prune_okb_sound : forall gu lu gp lp,
+  topo gu lu -> topo gp lp -> prune_okb gu lu gp lp = true ->
+  forall a b, In a lp -> In b lp -> (reach gp a b <-> reach gu a b).
+Proof. exact prune_okb_sound. Qed.
+
+(* ---- completeness side: statement pairs that touch a common name ---- *)
+(* a pair the checker accepts is ordered by the graph itself, hence emitted in the same relative
+   order under EVERY topological order (every tie-break), before and after hoisting *)
+Theorem C10_conflicts_okb_sound : forall g l groups,
+  topo g l -> conflicts_okb g l groups = true ->
+  forall a bs b, In (a, bs) groups -> In b bs ->
+    reach g a b /\ forall l', topo g l' -> prec l' a b.
+Proof. exact conflicts_okb_sound. Qed.
